@@ -68,7 +68,7 @@ def build(chk):
         half = lambda c: fin(c.r / 2)
         lin_terms = [t for t in [(1, c1), (2, c2)] if t[1].r != 0]
         if rep == 1 and coef[0] != 0:
-            lin_terms = [(1, fin(c1.r - 1)), (2, c2), (1, fin(Fraction(1)))]
+            lin_terms = [(1, fin(c1.r - 1))] + ([(2, c2)] if c2.r != 0 else []) + [(1, fin(Fraction(1)))]
         if rep == 2:
             pm = [([2, 1], half(c12)), ([1], c1), ([], k), ([2], c2), ([1, 2], half(c12))]
             fn = chk.M.function('Polynomial', chk.M.polynomial([m for m in pm if m[1].r != 0 or m[0] == []]))
